@@ -302,6 +302,9 @@ def t_tname(F, R):
         for c in (0, ord("+"), ord("#"), ord("a"), ord("$"), ord(","), ord("!"), 0x80, 0x2B00):
             for pos in range(17):
                 shapes.append([filler] * pos + [c] + [filler] * (16 - pos))
+    # names that look like shared-subscription or system topics (legal topic names: the filter rules do not apply to them)
+    for text in ("$share/", "$share/g", "$share//t", "$share/g/", "$share/g/t", "$share", "$SYS/", "$SYS/a", "$", "/", "//", "a//b", "$share/g/t/"):
+        shapes.append([ord(ch) for ch in text])
     while todo:
         w = todo.pop()
         if w in done or w < 0:
